@@ -21,6 +21,16 @@ fn bound() -> u64 {
     std::env::var("VERIF_C09_BOUND").ok().and_then(|s| s.parse().ok()).unwrap_or(B)
 }
 
+/// The reference derivation of the goal leaves the model's size bound: the program makes types grow along the derivation.
+fn derivation_grows(prog: &crate::model::MProgram, g: &crate::model::MGoal) -> bool {
+    let mut phs = vec![];
+    crate::model::collect_phs(g, &mut phs);
+    let uni = crate::model::build_universe(prog, &phs, 2);
+    let mut sem = crate::model::Sem::new(prog, 12);
+    let _ = sem.eval(&uni, &mut vec![], g, &Default::default());
+    !sem.last_clean
+}
+
 pub fn run(ctx: &Ctx, out: &mut CaseOut) {
     let mut r = Rng::for_case(ctx.prop, ctx.seed, ctx.k);
     // every tenth case: the lifetime fragment (region constraints in answers; text only, no oracle needed here)
@@ -138,6 +148,10 @@ pub fn run(ctx: &Ctx, out: &mut CaseOut) {
                             Some(if solver_name(choice) == "slg" { "slg:coinductive-nonground:blowup" } else { "recursive:coinductive-nonground:divergence" })
                         } else if multiplied {
                             Some("slg:coinductive-delayed-answers-multiply")
+                        } else if solver_name(choice) == "recursive" && mgoal.as_ref().map_or(false, |g| derivation_grows(&w.prog, g)) {
+                            // F40: types grow along the derivation (polymorphic recursion through fields); the search is only cut
+                            // by max_size and branches at every level
+                            Some("recursive:polymorphic-recursion-exponential-in-max-size")
                         } else {
                             None
                         };
